@@ -2,38 +2,54 @@
   C03 model — the closed loop of ONE object once the environment is silent:
 
     watch event → `process_resource_event`: cause detection (C05) on (stored last-handled essence,
-    current essence, memory flags) → handler selection → one handling pass (C02 `cycle`) →
+    current essence, deletion mark, own finalizer, memory flags) → the finalizer decision block (C06
+    `decision`: add the finalizer / remove the unneeded one — both skip the handlers this turn / release)
+    → handler selection → one handling pass (C02 `cycle`) →
     on `done or skip`: last-handled := essence, `fully_handled_once` := True →
-    `application.apply`: a non-empty patch → ONE PATCH, its echo is the next watch event;
+    `application.apply`: a non-empty patch → PATCH, its echo is the next watch event;
     else delays → sleep min(delays) (capped by WAITING_KEEPALIVE_INTERVAL) → the touch-dummy PATCH,
     its echo is the next watch event; else nothing: no event is pending, the loop is quiescent.
+    A marked object whose own finalizer is removed (and no foreign finalizer holds it) is gone.
 
   The per-object worker is sequential (`queueing.worker`) and, while nobody else writes, every event
   it receives is the echo of its own last PATCH: so the closed loop of one object is a *function*
-  `loopStep`. Time is integer ticks. Core Lean only.
+  `loopStep`. Around it, `act`/`runActs` let an adversarial environment interleave turns (with any
+  handler outcomes), external edits, deletion requests and operator restarts/kills: the histories the
+  property quantifies over. Time is integer ticks. Core Lean only.
 
-  Deliberately NOT in this model (other properties own them): the finalizer add/remove cycles and the
-  deletion branch (C06), daemons/timers and their delays (C09/C10), the consistency wait for the echo
-  (C07), the patch transport (C08). The object is alive and unmarked: `deleted = marked = blocked = false`.
+  Deliberately NOT in this model (other properties own them): daemons/timers and their delays (C09/C10:
+  `spawning = false` in the finalizer decision), the consistency wait for the echo (C07: `consistent =
+  true`), the patch transport and its conflicts (C08), foreign finalizer edits (C06; a constant
+  `foreignFins` says whether somebody else's finalizer holds the object).
 -/
 import Kopf.Model.C05_Cause
 import Kopf.Model.C02_Cycle
 import Kopf.Model.C14_Resume
+import Kopf.Model.C06_Finalizer
 namespace Kopf.C03
 open Kopf
 
 abbrev Id := C02.Id
 abbrev Tick := C02.Tick
 
-/-- What stays constant while the environment is silent. -/
+/-- What stays constant while the environment is silent.
+
+    GUARD (`FiltersStable` below): `sel`, `prematch`, `changeReq` and `exec` do not depend on what the
+    framework itself writes to the object (progress records, last-handled state, touch-dummy, finalizer,
+    `status.<handler>` results): kopf's filters (`labels=`, `annotations=`, `field=`, `when=`) are
+    evaluated on the whole body, so a filter that reads the framework's own annotations or the status
+    would make the selection change between two turns of a silent tail. Theorems about `loopStep env`
+    are about operators whose filters read the essence only. -/
 structure Env where
   owned : List Id                      -- `get_resource_handlers(resource)`
   subs : List Id                       -- ids of sub-handlers that may carry records (a PATCH can purge them)
-  sel : C05.Cause → List Id            -- `get_handlers(cause)`: gate + filters; filters read only the essence
+  sel : C05.Cause → List Id            -- `get_handlers(cause)`: gate + filters
   limits : Id → C02.Limits
   lifecycle : C02.Lifecycle
   exec : Id → Nat → C02.Outcome        -- what invoking handler `i` with `retry = n` yields
   prematch : Bool                      -- some changing handler's filters accept the object at all
+  changeReq : Bool                     -- `registry._changing.requires_finalizer(cause)`: a mandatory deletion handler prematches
+  foreignFins : Bool                   -- somebody else's finalizer is on the object (it survives our release)
   lat : Tick                           -- PATCH round trip + delivery delay of its echo
   cap : Tick                           -- `application.WAITING_KEEPALIVE_INTERVAL`
 
@@ -42,6 +58,9 @@ structure State (E : Type) where
   P : C02.Store            -- progress records the object carries
   base : Option E          -- stored last-handled essence (diff-base)
   ess : E                  -- the object's essence: constant while the environment is silent
+  marked : Bool            -- `metadata.deletionTimestamp` is set (a deletion was requested)
+  blocked : Bool           -- the framework's own finalizer is in `metadata.finalizers`
+  gone : Bool              -- the object does not exist any more
   noticed : Bool           -- `memory.noticed_by_listing`
   fullyHandled : Bool      -- `memory.fully_handled_once`
   now : Tick
@@ -50,9 +69,9 @@ structure State (E : Type) where
 
 variable {E : Type} [DecidableEq E]
 
-/-- `_detect_causes` for a live, unmarked object. -/
+/-- `_detect_causes` for an existing object (the event is not DELETED). -/
 def causeOf (s : State E) : C05.Cause :=
-  C05.detect { deleted := false, marked := false, blocked := false,
+  C05.detect { deleted := false, marked := s.marked, blocked := s.blocked,
                oldAbsent := s.base.isNone, diffNonEmpty := decide (s.base ≠ some s.ess),
                initial := s.noticed && !s.fullyHandled }
 
@@ -72,31 +91,66 @@ def minDelay : List Tick → Option Tick
     | none => some d
     | some m => some (if d ≤ m then d else m)
 
-/-- every id a PATCH of the framework can touch -/
+/-- every id a PATCH of the framework can touch (GUARD: `subs` lists every sub-handler id that occurs
+    in a stored record's or an outcome's `subrefs`; otherwise `writes` can miss a purge-only PATCH) -/
 def ids (env : Env) : List Id := env.owned ++ env.subs
+
+/-- what the finalizer decision block of `process_resource_causes` reads (C06), for this loop:
+    no daemons, a consistent view; `chgDelays` = the handling pass left delays -/
+def finIn (env : Env) (s : State E) (chgDelays : Bool) : C06.In :=
+  { spawning := false, spawnReq := false, changing := env.prematch, changeReq := env.changeReq,
+    isBlocked := s.blocked, isOngoing := s.marked, deletedEvent := false, consistent := true,
+    spawnDelays := false, changeDelays := chgDelays }
+
+/-- the decision of this turn -/
+def decisionOf (env : Env) (s : State E) : C06.Decision :=
+  C06.decision (finIn env s (!(pass env s).delays.isEmpty))
+
+/-- did the handling pass put anything into the patch (records or last-handled)? -/
+def changedOf (env : Env) (s : State E) : Bool :=
+  (ids env).any (fun i => (pass env s).P' i != s.P i) ||
+    decide ((if (pass env s).closed then some s.ess else s.base) ≠ s.base)
+
+/-- the state after a turn that ran the handling pass -/
+def nextState (env : Env) (s : State E) (now' : Tick) (pend : Bool) (w : Nat) : State E :=
+  { s with P := (pass env s).P', base := (if (pass env s).closed then some s.ess else s.base),
+           fullyHandled := (s.fullyHandled || (pass env s).closed), now := now', pending := pend, writes := w }
+
+/-- A turn in which `process_changing_cause` is reached and the object is not released: the pass, then
+    `application.apply`. -/
+def handleTurn (env : Env) (s : State E) : State E :=
+  if changedOf env s then
+    -- patch is non-empty: PATCH; a pending sleep is skipped; the echo re-triggers the loop
+    nextState env s (s.now + env.lat) true (s.writes + 1)
+  else
+    match minDelay (pass env s).delays with
+    | some d =>
+        -- nothing to patch, but delayed handlers: sleep (capped), then the touch-dummy PATCH
+        nextState env s (s.now + (if d > env.cap then env.cap else d) + env.lat) true (s.writes + 1)
+    | none => nextState env s s.now false s.writes
+
+/-- The closing pass of a deletion: the patch (records purged, last-handled) is merge-patched if it has
+    content, then the JSON patch removes the own finalizer; with no other finalizer the object is gone. -/
+def releaseTurn (env : Env) (s : State E) : State E :=
+  { nextState env s (s.now + env.lat) env.foreignFins (s.writes + (if changedOf env s then 2 else 1)) with
+    blocked := false, gone := !env.foreignFins }
 
 /-- One turn of the closed loop: consume the pending event, process it, `apply`. -/
 def loopStep (env : Env) (s : State E) : State E :=
   if !s.pending then s                                  -- quiescent: nothing arrives, nothing happens
-  else if !env.prematch then { s with pending := false }  -- "be blind to it, store no state"
+  else if s.gone then { s with pending := false }       -- the DELETED event: forget, log, nothing else
   else
-    let r := pass env s
-    let base' := if r.closed then some s.ess else s.base
-    let fh' := s.fullyHandled || r.closed
-    let changed := (ids env).any (fun i => r.P' i != s.P i) || decide (base' ≠ s.base)
-    if changed then
-      -- patch is non-empty: PATCH; a pending sleep is skipped; the echo re-triggers the loop
-      { s with P := r.P', base := base', fullyHandled := fh', now := s.now + env.lat,
-               pending := true, writes := s.writes + 1 }
-    else
-      match minDelay r.delays with
-      | some d =>
-          -- nothing to patch, but delayed handlers: sleep (capped), then the touch-dummy PATCH
-          let sl := if d > env.cap then env.cap else d
-          { s with P := r.P', base := base', fullyHandled := fh', now := s.now + sl + env.lat,
-                   pending := true, writes := s.writes + 1 }
-      | none =>
-          { s with P := r.P', base := base', fullyHandled := fh', pending := false }
+    let d := decisionOf env s
+    if d.add then
+      -- "Adding the finalizer, thus preventing the actual deletion": no handlers this turn
+      { s with blocked := true, now := s.now + env.lat, pending := true, writes := s.writes + 1 }
+    else if d.removeUnneeded then
+      -- "Removing the finalizer, as there are no handlers requiring it": no handlers this turn
+      let g := s.marked && !env.foreignFins
+      { s with blocked := false, gone := g, now := s.now + env.lat, pending := !g, writes := s.writes + 1 }
+    else if !d.handlersRun then { s with pending := false }   -- "be blind to it, store no state"
+    else if d.release then releaseTurn env s
+    else handleTurn env s
 
 /-- `n` turns of the loop -/
 def iter (env : Env) : Nat → State E → State E
@@ -104,9 +158,143 @@ def iter (env : Env) : Nat → State E → State E
   | n + 1, s => iter env n (loopStep env s)
 
 /-- A new operator process meets the object (graceful restart, or kill at any point): its memory is
-    empty, the object is seen in the initial listing. What the object carries (`P`, `base`) is
-    whatever the server holds; the clock has moved on. -/
+    empty, the object (if it still exists) is seen in the initial listing. What the object carries
+    (`P`, `base`, deletion mark, finalizer) is whatever the server holds; the clock has moved on. -/
 def restart (s : State E) (t : Tick) : State E :=
-  { s with noticed := true, fullyHandled := false, now := t, pending := true }
+  { s with noticed := true, fullyHandled := false, now := t, pending := !s.gone }
+
+/-! ### the environment as an adversary: histories -/
+
+/-- What can happen to the object and the operator, one action at a time. -/
+inductive Act (E : Type) where
+  | turn (exec : Id → Nat → C02.Outcome)   -- the operator processes the pending event; handlers behave as `exec`
+  | edit (e : E) (t : Tick)                -- an external write makes the essence `e`; its event is delivered at `t`
+  | delete (t : Tick)                      -- an external deletion request
+  | restart (t : Tick)                     -- the operator is stopped or killed, a new process starts at `t`
+  | lostWrite (exec : Id → Nat → C02.Outcome) (t : Tick)
+      -- kill BEFORE the in-flight write reached the server: the turn's handlers ran, nothing was persisted,
+      -- a new process starts at `t` (kill AFTER the server applied it = `turn` followed by `restart`)
+
+def act (env : Env) (s : State E) : Act E → State E
+  | .turn x => loopStep { env with exec := x } s
+  | .edit e t => if s.gone then s else { s with ess := e, now := t, pending := true }
+  | .delete t =>
+      if s.gone then s
+      else if s.blocked || env.foreignFins then { s with marked := true, now := t, pending := true }
+      else { s with marked := true, gone := true, now := t, pending := true }
+  | .restart t => restart s t
+  | .lostWrite _ t => restart s t
+
+def runActs (env : Env) (s : State E) (acts : List (Act E)) : State E := acts.foldl (act env) s
+
+/-- a freshly created object nobody has handled yet, its ADDED event pending -/
+def created (e : E) (t : Tick) : State E :=
+  { P := fun _ => none, base := none, ess := e, marked := false, blocked := false, gone := false,
+    noticed := false, fullyHandled := false, now := t, pending := true, writes := 0 }
+
+/-- external edits while no operator runs: only the essence moves -/
+def applyEdits (s : State E) (es : List E) : State E :=
+  es.foldl (fun st e => { st with ess := e }) s
+
+/-! ### filters that may read what the framework writes -/
+
+/-- The loop of an operator whose environment (selection, prematch, finalizer requirement, handler
+    behaviour) is recomputed from the whole state on every turn. -/
+def loopStepG (envOf : State E → Env) (s : State E) : State E := loopStep (envOf s) s
+
+def iterG (envOf : State E → Env) : Nat → State E → State E
+  | 0, s => s
+  | n + 1, s => iterG envOf n (loopStepG envOf s)
+
+/-- GUARD "filters do not read what the framework writes": along the silent tail from `s` the
+    environment stays what it is at `s`. It holds whenever `envOf` depends on the essence, the deletion
+    mark and the foreign finalizers only (`filtersStable_of_essence` in Props). -/
+def FiltersStable (envOf : State E → Env) (s : State E) : Prop :=
+  ∀ n, envOf (iterG envOf n s) = envOf s
+
+/-! ### vocabulary of the statements -/
+
+/-- well-formed environment: selected handlers are registered ones; latency ≥ 0; keepalive cap > 0 -/
+structure WF (env : Env) : Prop where
+  sub : ∀ c, ∀ i ∈ env.sel c, i ∈ env.owned
+  lat : 0 ≤ env.lat
+  cap : 0 < env.cap
+
+/-- "handlers stop failing": from now on every invocation yields a final outcome (success, permanent
+    failure; exhausted retries/timeouts are final by themselves) -/
+def AllFinal (env : Env) : Prop := ∀ i n, (env.exec i n).final = true
+
+/-- All stored records of the owned handlers carry the same purpose: an invariant of every handling
+    pass (`Kopf.C02.uniform_preserved`), true of an object without records. (Same as `C02.UniformOn`.) -/
+def Uniform (env : Env) (s : State E) : Prop :=
+  ∃ p : String, ∀ i ∈ env.owned, ∀ r, s.P i = some r → r.purpose = some p
+
+/-- the handler is due at `now`: no record yet, or an unfinished record that is not sleeping -/
+def awakeP (P : C02.Store) (now : Tick) (i : Id) : Bool :=
+  match P i with | some r => r.awakened now | none => true
+
+/-- the handler still has to reach a final outcome -/
+def unfin (P : C02.Store) (i : Id) : Bool :=
+  match P i with | some r => !r.finished | none => true
+
+/-- keepalive rounds still needed before the handler's delay can be slept in one piece -/
+def slack (cap : Tick) (P : C02.Store) (now : Tick) (i : Id) : Nat :=
+  match P i with
+  | some r => if r.finished then 0 else
+      match r.delayed with
+      | some d => (d - now).toNat / cap.toNat
+      | none => 0
+  | none => 0
+
+def Uv (l : List Id) (P : C02.Store) : Nat := (l.filter (unfin P)).length
+def Av (l : List Id) (P : C02.Store) (t : Tick) : Nat := if l.any (awakeP P t) then 0 else 1
+def Cv (cap : Tick) (l : List Id) (P : C02.Store) (t : Tick) : Nat := (l.map (slack cap P t)).sum
+
+/-- the cause has a handler reason (creation, update, deletion, resuming) -/
+def isHandler (s : State E) : Bool := C02.handlerReasons.contains (C14.reasonStr (causeOf s).reason)
+
+/-- `state.extras` is non-empty: some stored record carries a superseded purpose -/
+def extrasOf (env : Env) (s : State E) : Bool :=
+  C02.hasExtras (C02.withHandlers (C02.fromStorage s.P env.owned) (env.sel (causeOf s))
+    (C14.reasonStr (causeOf s).reason) s.now) (C02.known (cfgOf env s)) (C14.reasonStr (causeOf s).reason)
+
+/-- this turn only adjusts the finalizer (adds it, or removes the one nobody needs) -/
+def adjusting (env : Env) (s : State E) : Bool :=
+  (decisionOf env s).add || (decisionOf env s).removeUnneeded
+
+/-- turns still needed by the handling proper:
+    2·(selected handlers still unfinished) + (1 if none of them is due now) + (1 if superseded records
+    are still to be re-purposed) + 1 (the echo of the closing PATCH) + the keepalive rounds of delays
+    longer than the cap; for an informational cause 1, or 2 if leftover records are purged first. -/
+def core (env : Env) (s : State E) : Nat :=
+  if !env.prematch then 1
+  else if !isHandler s then (if changedOf env s then 2 else 1)
+  else 2 * Uv (env.sel (causeOf s)) s.P + Av (env.sel (causeOf s)) s.P s.now
+       + (if extrasOf env s then 1 else 0) + 1
+       + Cv env.cap (env.sel (causeOf s)) s.P s.now
+
+/-- Upper bound on the number of further turns of the loop. A function of the state only. -/
+def bound (env : Env) (s : State E) : Nat :=
+  if !s.pending then 0
+  else if s.gone then 1
+  else (if adjusting env s then 1 else 0) + core env s
+
+/-- invocations of the next `n` turns, up to and including the closing pass -/
+def invsOf (env : Env) : Nat → State E → List (List (Id × Nat))
+  | 0, _ => []
+  | n + 1, s => (pass env s).invoked ::
+      (if (pass env s).closed then [] else invsOf env n (loopStep env s))
+
+/-- the clock readings / handler behaviour of the next `n` turns, as C02 `Step`s -/
+def stepsOf (env : Env) : Nat → State E → List (Tick × Tick × (Id → Nat → C02.Outcome))
+  | 0, _ => []
+  | n + 1, s => (s.now, s.now, env.exec) :: stepsOf env n (loopStep env s)
+
+/-- how many of the next `n` turns close a handling cycle (write the last-handled state) -/
+def closings (env : Env) : Nat → State E → Nat
+  | 0, _ => 0
+  | n + 1, s =>
+      (if s.pending && !s.gone && (decisionOf env s).handlersRun && (pass env s).closed then 1 else 0)
+        + closings env n (loopStep env s)
 
 end Kopf.C03
